@@ -420,7 +420,7 @@ def classified_sites(ctx):
     """potential panic sites per (crate, function, kind), after the mechanical discharges (covered unreachable arms, boundary-safe slices)"""
     sites = panic_sites(ctx.mir)
     cov = {}
-    for idx_, cname in ((ctx.tc, "template"), (ctx.sc, "stylesheet")):
+    for idx_, cname in ((ctx.tc, "template"), (ctx.sc_raw, "stylesheet")):
         for q, n_ in covered_unreachables(idx_).items():
             cov[(cname, q)] = n_
     for (crate, root, cat) in list(sites):
@@ -438,7 +438,7 @@ def classified_sites(ctx):
             sites[key_] = sites[key_][take:]
             if not sites[key_]:
                 del sites[key_]
-    for idx_, cname in ((ctx.tc, "template"), (ctx.sc, "stylesheet")):
+    for idx_, cname in ((ctx.tc, "template"), (ctx.sc_raw, "stylesheet")):      # as written: MIR sites are keyed by the function they live in
         for q, n_ in boundary_safe_slices(idx_).items():
             for cat in ("index:str", "index:String"):
                 key_ = (cname, q, cat)
